@@ -18,6 +18,14 @@ CLAIMED = {
         "text": "bounded fault enumeration decided by the solver-driven explorer: {error, panic} at every resolver/directive position of the families (single faults quick, pairs thorough), on calling and spawned goroutines and list elements, worker_limit 0/1/2: response equals the reference with that position failed, recover hook once per panic, no panic escapes a goroutine",
         "design_ref": "DESIGN.md section 4, C04", "note": _N + _PROBE, "technique": _T,
     },
+    "C05": {
+        "text": "bounded: list fan-out (3+2 elements) with the context cancelled at 9 points x worker_limit 0/1/2 - the join terminates (deadlock = every task blocked is a violation) and no task survives; 7 @defer families consumed for one payload then cancelled - no task left blocked",
+        "design_ref": "DESIGN.md section 4, C05", "note": _N + _PROBE + "; real context.WithCancel and x/sync/semaphore interpreted from source", "technique": _T + "; deadlock/leak detection by the deterministic task scheduler",
+    },
+    "C13": {
+        "text": "bounded: 7 @defer families x symbolic if: variables x outcome deviations x every completion order of groups; arrival-order merge equals a defer-aware reference, delivery rules (path delivered before, hasNext, once per (path,label), termination); two genuine defects are recorded as known findings",
+        "design_ref": "DESIGN.md section 4, C13", "note": _N + _PROBE, "technique": _T + "; schedule exploration, gated native replay of completion orders",
+    },
     "C06": {
         "text": "bounded schedule exploration: every order of enabled tasks at blocking points (plus preemptions at synchronisation operations in the invalids harness) is a decision of the explorer; on each schedule the response equals the schedule-free reference and a vector-clock happens-before check covers every load/store; mutation root fields proven serial on every schedule",
         "design_ref": "DESIGN.md section 4, C06", "note": _N + _PROBE + "; race counterexamples are confirmed with go test -race", "technique": _T + "; happens-before race detection over explored schedules",
